@@ -81,6 +81,9 @@ unsafe impl<T: 'static> LocalRef<T> for RawLocalPooledRef<T> {
         #[cfg(debug_assertions)]
         self.core().state.borrow_mut().unregister(self.event);
 
+        #[cfg(folo_verif)]
+        crate::verif_hook::release(self.event.as_ptr());
+
         // SAFETY: The pointer came from the pool state's `rent()`, as the `new()` contract
         // requires. The caller was granted sole cleanup ownership of the event by the state
         // machine, so this is the only release of this event and nothing accesses it afterwards.
